@@ -191,6 +191,14 @@ theorem sumW_bump (af : α) (c : Int) (l : List (Int × α)) : sumW (bump af c l
     · simp only [sumW, List.map_cons, List.sum_cons] at ih ⊢
       rw [ih]; ring
 
+theorem sum_map_snd_mul (l : List (Int × α)) (c : α) :
+    (l.map fun kw => kw.2 * c).sum = sumW l * c := by
+  induction l with
+  | nil => simp [sumW]
+  | cons kw t ih =>
+    simp only [sumW, List.map_cons, List.sum_cons] at ih ⊢
+    rw [ih]; ring
+
 theorem wOf_foldl_bump (af : α) (cs : List Int) (acc : List (Int × α)) (k : Int) :
     wOf (cs.foldl (fun acc c => bump af c acc) acc) k = wOf acc k + af * (cs.count k : α) := by
   induction cs generalizing acc with
@@ -575,5 +583,59 @@ theorem foldl_incr_sum (N : Int → Nat) (cells : List Int) (ws : List α)
       exact h c' (by simp [hc'])
 
 end Counts
+
+/-! ### unfolding `Catchment.intersect` -/
+
+section Unfold
+variable {α : Type} [Field α] [LinearOrder α] [IsStrictOrderedRing α] [FloorRing α]
+
+instance instDecidableInFootprint (g : Geom α) (c : Int) (x y : α) : Decidable (InFootprint g c x y) := by
+  unfold InFootprint; infer_instance
+
+instance instDecidableInExtent (g : Geom α) (x y : α) : Decidable (InExtent g x y) := by
+  unfold InExtent; infer_instance
+
+/-- entry `(i, j)` of the data array (rows from the top) -/
+def AreaGrid.at (a : AreaGrid α) (i j : Nat) : Option α := (a.data[i]?).bind (·[j]?)
+
+/-- row / column of a parent cell -/
+abbrev prow (g : Geom α) (k : Int) : Int := (cell2rowcol g.nrows g.ncols k).1
+abbrev pcol (g : Geom α) (k : Int) : Int := (cell2rowcol g.nrows g.ncols k).2
+
+theorem intersect_eq_ok {coarse fine : Geom α} {cells : List Int} {a : AreaGrid α}
+    (h : intersect coarse fine cells = .ok a) :
+    ∃ kw0 rest, cIntersect coarse fine.csz (cells.map (cell2coord fine)) = kw0 :: rest ∧
+      a.keys = (kw0 :: rest).map (·.1) ∧ a.weights = (kw0 :: rest).map (·.2) ∧
+      a.rowStart = listMin (prow coarse kw0.1) (rest.map fun kw => prow coarse kw.1) ∧
+      a.rowEnd = listMax (prow coarse kw0.1) (rest.map fun kw => prow coarse kw.1) ∧
+      a.colStart = listMin (pcol coarse kw0.1) (rest.map fun kw => pcol coarse kw.1) ∧
+      a.colEnd = listMax (pcol coarse kw0.1) (rest.map fun kw => pcol coarse kw.1) ∧
+      a.xll = listMin (getcoord coarse kw0.1).1 (rest.map fun kw => (getcoord coarse kw.1).1) - coarse.csz / (1 + 1) ∧
+      a.yll = listMin (getcoord coarse kw0.1).2 (rest.map fun kw => (getcoord coarse kw.1).2) - coarse.csz / (1 + 1) ∧
+      a.nrows = a.rowEnd - a.rowStart + 1 ∧ a.ncols = a.colEnd - a.colStart + 1 ∧
+      a.data = (List.range a.nrows.toNat).map fun (i : Nat) => (List.range a.ncols.toNat).map fun (j : Nat) =>
+        scatterFn coarse.nrows coarse.ncols a.rowStart a.colStart (kw0 :: rest) (i : Int) (j : Int) := by
+  unfold intersect at h
+  simp only [] at h
+  split at h
+  · cases h
+  · rename_i kw0 rest heq
+    injection h with h
+    subst h
+    refine ⟨kw0, rest, heq, ?_, ?_, ?_, ?_, ?_, ?_, ?_, ?_, ?_, ?_, ?_⟩
+    all_goals first | rfl | (simp only [heq])
+
+theorem intersect_eq_error {coarse fine : Geom α} {cells : List Int} {e : Err}
+    (h : intersect coarse fine cells = .error e) :
+    e = .noOverlap ∧ cIntersect coarse fine.csz (cells.map (cell2coord fine)) = [] := by
+  unfold intersect at h
+  simp only [] at h
+  split at h
+  · rename_i heq
+    injection h with h
+    exact ⟨h.symm, heq⟩
+  · cases h
+
+end Unfold
 
 end HydroVerif.C16
